@@ -1,35 +1,178 @@
 """Per-property evidence / manifest texts and the non-Kani part of C19."""
 
-COMMON_NOTE = ("Trusted base: rustc front end + Kani's MIR→goto translation and its std shims, CBMC's symbolic execution and bit-blasting, "
-               "CaDiCaL. Kani models the dev profile (overflow checks and debug assertions on). Bounded: every claim is for the enumerated "
-               "shapes/sizes only; unwinding assertions make an undersized loop bound a failure.")
+COMMON_NOTE = ("Trusted base: rustc front end, Kani's MIR->goto translation and its std shims, CBMC's symbolic execution and bit-blasting, "
+               "CaDiCaL; the harness crate's executable specification (kani/src/spec, written from RFC 2661 and the crate's documented "
+               "bit numbering, self-tested natively). Kani models the dev profile (overflow checks and debug assertions on). Every claim "
+               "is bounded: it covers the enumerated shapes/sizes only, all values at those shapes; unwinding assertions are on, so an "
+               "undersized loop bound is a failure, never a silent truncation; timeouts / out-of-memory exit 2, never 0.")
+
+TECH = ("bounded symbolic execution of the compiled crate (Kani 0.68 -> CBMC 6.11 -> CaDiCaL) over symbolic inputs at concrete shapes, "
+        "against an independent executable specification; unwinding assertions; vacuity witnesses; counterexamples replayed natively")
+
+STUB_UTF8 = "core::str::from_utf8 -> Table 3-7 automaton (kani/src/spec/utf8.rs), self-tested against std natively; used in harnesses of string-bearing kinds"
+STUB_DECODE = ("rl2tp::avp::decode_avp -> abs_decode: reads nothing, logs (attribute type, sub-reader length), returns a nondeterministic "
+               "Ok(MessageType) / Ok(other) / Err — results hold for every total function in that position")
+STUB_GREEDY0 = ("rl2tp::avp::AVP::try_read_greedy -> 'the region holds no AVP' (empty list) in the fully symbolic message-level harnesses; "
+                "AVP lists are covered with the real record walker on concrete skeletons and one layer down")
+STUB_MD5 = ("md5::compute -> uninterpreted function (Ackermann reduction: fresh digest per call, equal inputs => equal outputs); "
+            "counterexamples are replayed natively with real MD5")
+
+LEAF_FUNCS = ["AVP::try_read_greedy", "avp::header::Header::try_read", "avp::decode_avp", "types::*::try_read (39 kinds)", "SliceReader::*", "AVP::write",
+              "WritableAVP::write / QueryableAVP::get_length (all kinds)", "VecWriter::*"]
+MSG_FUNCS = ["Message::try_read", "Message::try_read_validate", "message::flags::Flags::*", "DataMessage::try_read", "ControlMessage::try_read", "SliceReader::*"]
 
 EVIDENCE = {
-    "C16": dict(
-        level="model_checking",
-        level_text=("For each enumerated field one symbolic u16 is pushed through the real decoder/encoder and the solver decides the "
-                    "accept set, the code→name map (names and numbers taken from RFC 2661, not from the crate) and re-encoding for all "
-                    "65 536 values at once; complete for the domain, not sampled."),
-        level_note=COMMON_NOTE + " Name↔number tables are transcribed from RFC 2661 §3.2/§4.4.2/§4.4.5.",
-        functions_encoded=["types::MessageType::try_read (phf map incl. SipHash)", "types::ResultCode::try_read", "result_code::Error::try_read",
-                           "types::ProxyAuthenType::try_read", "CodeValue::{from,as_stop_ccn,as_cdn,into}", "AVP::write", "avp::decode_avp (dispatch, via try_read_greedy)"],
-        stubs=[],
-        bounds="one 16-bit code per query, fully symbolic (all 65 536 values); attribute-type dispatch at payload lengths listed in the harness names",
-        outside_claim=[],
-        assumptions=["RFC 2661 number tables transcribed correctly in kani/src/spec/avp.rs and kani/src/h_basic.rs"],
-    ),
-    "C17": dict(
-        level="model_checking",
-        level_text=("Constructor→accessor for the four bitmask kinds with both booleans symbolic, and wire word→decode→accessors/encode with "
-                    "the whole 32-bit word and the flipped bit position symbolic; the domain is finite and the solver covers all of it."),
+    "C01": dict(
+        level_text=("Panic / overflow / out-of-range / unwrap / unreachable / non-termination (unwinding assertions) are CBMC properties of the "
+                    "compiled decoder; they are decided for all octet values at every enumerated input length of each layer: whole messages with "
+                    "all 8 option sets (0-16 octets quick, 0-24 thorough), bare AVP lists with every octet incl. length fields symbolic "
+                    "(0-14 / 0-20 octets), every AVP kind at truncated/exact/surplus payload lengths, the symbolic-type dispatch, reveal."),
+        level_note=COMMON_NOTE + " Layers are composed by argument (DESIGN.md §3.1), not mechanically: the message layer holds for an empty AVP region, the list layer for every total per-type decoder, the per-type decoders are checked for real.",
+        functions_encoded=MSG_FUNCS + LEAF_FUNCS + ["AVP::reveal"], stubs=[STUB_GREEDY0, STUB_DECODE, STUB_UTF8, STUB_MD5],
+        bounds="message <= 16 (24) octets; AVP list <= 14 (20) octets, up to 3 records; one record per kind with payload L-1, L, L+1 (fixed kinds), 0-4 (6) octets (strings), 0-3 (7) (byte strings); hidden values 0-32 (48) octets",
+        outside_claim=["inputs longer than the bounds", "AVP lists with more than 3 records in one query", "control layer's handling of 2+ decoded AVPs (does not finish in the engine)", "allocation failure"],
+        assumptions=["Kani's std models (Vec, String, alloc) are faithful", "layer composition argument of DESIGN.md §3.1"]),
+    "C02": dict(
+        level_text=("The decoder is instantiated with a harness-supplied Reader that asserts the precondition of every unchecked request "
+                    "(read_uN, skip, subreader within what remains) and otherwise is the reference cursor; the same harnesses as C01/C05 "
+                    "decide, for all octet values at the enumerated lengths, that no precondition is ever violated and that the result equals "
+                    "the specification (hence the SliceReader result). CBMC's pointer checks cover get_unchecked inside SliceReader itself."),
+        level_note=COMMON_NOTE + " 'Every conforming reader' is by parametricity: the decoder sees a reader only through the trait and the monitor fixes the unique answer the contract allows.",
+        functions_encoded=MSG_FUNCS + LEAF_FUNCS + ["model::MonitorReader (harness)"], stubs=[STUB_GREEDY0, STUB_DECODE, STUB_UTF8],
+        bounds="as C01 (monitor instantiation: messages 0-16/24 octets, AVP lists 6,12 (0-20) octets, every per-kind record)",
+        outside_claim=["reveal builds its own SliceReader: only pointer checks apply there", "readers that violate the contract"],
+        assumptions=["parametricity argument"]),
+    "C03": dict(
+        level_text=("For every AVP kind and enumerated size a symbolic *specified value* is turned into the crate value it denotes, encoded by the "
+                    "real encoder and decoded by the real record walker; the solver decides decode(encode(a)) = a (field-wise against the "
+                    "specification and by the crate's own PartialEq) for all field values. Control messages with 0 and 1 AVP (all 14 message "
+                    "types) round-trip through the real message codec; AVP pairs/triples through the record walker."),
+        level_note=COMMON_NOTE + " Control messages with 2+ AVPs through the real control codec in one query are out of reach (DESIGN.md §2 P11/P21); they are covered record-wise (sequences) plus the 0/1-AVP message harnesses.",
+        functions_encoded=LEAF_FUNCS + ["Message::write", "ControlMessage::write", "ControlMessage::try_read", "Message::try_read_validate"], stubs=[STUB_UTF8],
+        bounds="39 kinds x sizes {fixed L; 1,4 (9) octets byte strings; 1,4 (6) strings; Result Code 2,4,5,8; Q.931 3,4,7}; control messages with 0/1 AVP; sequences of 2-3 AVPs",
+        outside_claim=["control messages with 2+ AVPs in one query", "payload sizes not enumerated (250/506/1017 not run)", "hidden AVPs are covered under C11"],
+        assumptions=["from_spec (kani/src/kinds.rs) builds the value the specification denotes — itself checked by same() in each harness"]),
+    "C04": dict(
+        level_text=("Data messages of every enumerated shape (payload 1,2,5,8 octets; Ns/Nr present or not; Length absent or the true total; "
+                    "offset absent or 0..payload-1) with all ids, sequence numbers, priority and payload octets symbolic are encoded by the real "
+                    "encoder, compared with the specified octets, decoded under the strictest options and compared field by field; plus every "
+                    "data message of 0-16 (24) fully symbolic octets against the specification decoder."),
         level_note=COMMON_NOTE,
-        functions_encoded=["types::{FramingCapabilities,BearerCapabilities,BearerType,FramingType}::{new,try_read,accessors}", "WritableAVP::write for the four kinds", "AVP::write"],
-        stubs=[],
-        bounds="complete: (bool,bool) and u32 × bit index",
-        outside_claim=[],
-        assumptions=["accessor ↔ parameter pairing is by name (digital↔digital, analog↔analog, async↔async, sync↔sync; FramingType: first/second)"],
-    ),
+        functions_encoded=["Message::write", "DataMessage::write", "Flags::new/set_*", "Message::try_read_validate", "DataMessage::try_read", "SliceReader::bytes/skip_bytes"], stubs=[STUB_GREEDY0],
+        bounds="52 shapes (14 quick); payload <= 8 octets; offset <= 7", outside_claim=["larger payloads (the code only copies them)"], assumptions=[]),
+    "C05": dict(
+        level_text=("Accept-iff-specified and field-for-field equality with the executable specification, decided for all octet values at each "
+                    "enumerated length, layer by layer: flag word / options / data messages / control header (whole messages 0-16 (24) octets, "
+                    "8 option sets), record framing with every octet symbolic (AVP lists 0-14 (20) octets), all 39 payload formats at "
+                    "truncated/exact/surplus lengths, the attribute-type dispatch over all 65 536 types, message-type / error-type / proxy-type codes."),
+        level_note=COMMON_NOTE + " Oracle independence: the specification shares no code with rl2tp; it demands a particular error only where the properties name one.",
+        functions_encoded=MSG_FUNCS + LEAF_FUNCS, stubs=[STUB_GREEDY0, STUB_DECODE, STUB_UTF8],
+        bounds="as C01", outside_claim=["as C01"], assumptions=["specification transcribed correctly from RFC 2661 §3.1, §4.1, §4.4 (self-tests: kani/tests)"]),
+    "C06": dict(
+        level_text=("Encoder output vs specification encoder, octet for octet, for all field values: every AVP kind at the enumerated sizes "
+                    "(header: M bit, H only on hidden, reserved zero, vendor 0, type number, 10-bit length), control messages with 0/1 AVP, "
+                    "data messages in all 16 optional-field combinations, re-encoded decoded values."),
+        level_note=COMMON_NOTE, functions_encoded=["AVP::write", "WritableAVP::write (all kinds)", "AVP::make_flags_and_length", "Message::write", "ControlMessage::write", "DataMessage::write", "Flags::new", "VecWriter::*"],
+        stubs=[STUB_UTF8], bounds="as C03/C04", outside_claim=["as C03"], assumptions=[]),
+    "C07": dict(
+        level_text=("Length exactness: 6 + get_length() = octets written, the 10-bit length and the control Length equal the extent, AVPs tile "
+                    "the body — for every kind/size of C03 and, with a length-only writer at a symbolic start offset, at 1022 and 1023 octets; "
+                    "refusal: AVPs of 1024, 1025 (1280) octets and hide() of a 1018-octet value must panic — a should_panic harness whose "
+                    "'reached the code after the call' witness must be unsatisfiable."),
+        level_note=COMMON_NOTE + " NOT decided: 'a control message over 65 535 octets is refused' — needs >= 65 AVPs in one Vec<AVP>, and 2 are already out of the engine's reach.",
+        functions_encoded=["AVP::write", "AVP::make_flags_and_length", "AVP::get_length", "AVP::hide (length assertion)", "ControlMessage::write", "model::CountWriter (harness)"], stubs=[STUB_UTF8],
+        bounds="sizes of C03 plus 1022/1023/1024/1025/1280; start offset any value < 2^32",
+        outside_claim=["message-level 65 535 limit", "sizes strictly between the small enumerated ones and 1022"], assumptions=[]),
+    "C08": dict(
+        level_text=("Consumed-length assertions in the message harnesses (reader left at n - declared Length for every n and every declared "
+                    "length), encoded messages followed by two symbolic foreign octets, and at the AVP-list layer: every record's decoder is handed "
+                    "exactly the record's payload length (all framing octets symbolic), sequences of 2-3 AVPs decode to the per-record results in order."),
+        level_note=COMMON_NOTE, functions_encoded=MSG_FUNCS + ["AVP::try_read_greedy", "Header::try_read"], stubs=[STUB_GREEDY0, STUB_DECODE, STUB_UTF8],
+        bounds="messages 0-16 (24) octets; AVP lists 0-14 (20) octets; suffix 2 octets", outside_claim=["longer suffixes / more records"], assumptions=[]),
+    "C09": dict(
+        level_text=("Encoding after a 3-octet symbolic prefix leaves it untouched and appends exactly the octets of encoding into an empty writer "
+                    "(every kind/size of C03, control 0/1 AVP, data shapes); with a length-only writer whose start offset is symbolic (any value "
+                    "< 2^32) every positional overwrite is inside the value being encoded; sequences of 2-3 values equal the concatenation."),
+        level_note=COMMON_NOTE, functions_encoded=["AVP::write", "Message::write", "ControlMessage::write", "DataMessage::write", "VecWriter::write_bytes_at"], stubs=[STUB_UTF8],
+        bounds="prefix 3 octets stored / any offset counted; as C03", outside_claim=[], assumptions=[]),
+    "C10": dict(
+        level_text=("For every AVP kind and every accepted payload of the enumerated lengths (all octets symbolic, so non-canonical inputs with "
+                    "surplus octets and non-zero reserved octets are included): decode, re-encode, decode, re-encode — same value, same octets, never "
+                    "longer. Message level: zero-AVP control messages directly; one-AVP messages by decode = specified value and encode(value) = specified octets."),
+        level_note=COMMON_NOTE + " Decoded values live in a heap Vec whose shape is not constant in symbolic execution; the second round therefore runs on a local value shown (field-wise) to denote the same specified value.",
+        functions_encoded=LEAF_FUNCS + ["ControlMessage::try_read/write"], stubs=[STUB_UTF8], bounds="as C05 leaf lengths", outside_claim=["messages with 2+ AVPs", "data messages (covered by C04 round trip only)"], assumptions=[]),
+    "C11": dict(
+        level_text=("hide then reveal with the hash an uninterpreted function: for representative kinds, secret lengths 0/1/3/16, one to three "
+                    "blocks (aligned and unaligned), all value / secret / random-vector / padding octets symbolic, the solver decides "
+                    "reveal(hide(a)) = a; identity cases for hidden / non-hidden arguments."),
+        level_note=COMMON_NOTE + " Holds for every hash function, hence for MD5.", functions_encoded=["AVP::hide", "AVP::reveal", "decode_avp", "WritableAVP::write"], stubs=[STUB_MD5, STUB_UTF8],
+        bounds="1-2 blocks quick, 3 thorough; secret <= 16 octets; 13 (kind,size,secret,padding) cases", outside_claim=["more than 3 blocks", "kinds/sizes not enumerated", "hidden AVP after encode/decode is covered by the Hidden record harnesses of C05 (opaque octets preserved)"], assumptions=[]),
+    "C12": dict(
+        level_text=("The hidden value is compared with an independent RFC 2661 §4.3 computation over the same uninterpreted hash, so equality is "
+                    "provable only if rl2tp feeds the hash exactly the specified octet strings in the specified roles; size formula, type in clear, "
+                    "independence from unused alignment padding; reveal vs the reference decryption for every plaintext of 16/32 (48) octets. The md5 "
+                    "dependency itself is compared natively with an RFC 1321 reference (kani/tests)."),
+        level_note=COMMON_NOTE + " The original-length subfield holds 6 + |value| (the crate's convention, fixed by its InvalidOriginalAVPLength range 6..=1023); the RFC's literal reading is |value| — not decided by the property text, recorded in DESIGN.md.",
+        functions_encoded=["AVP::hide", "AVP::reveal"], stubs=[STUB_MD5, STUB_DECODE], bounds="as C11; reveal 0-32 (48) octets", outside_claim=["MD5 = RFC 1321 only checked natively on vectors, not symbolically"], assumptions=[]),
+    "C13": dict(
+        level_text=("reveal on every hidden value of 0,1,15,16,17,32 (31,33,48) octets, any attribute type, secret, random vector: for aligned "
+                    "sizes the quantifier ranges over the plaintext (the cipher is a bijection for fixed keys), so the solver's counterexample "
+                    "replays natively under real MD5; panic/out-of-range are CBMC properties, rejection rules and 'decoded as the announced type "
+                    "from exactly the announced length' are assertions."),
+        level_note=COMMON_NOTE, functions_encoded=["AVP::reveal", "SliceReader::subreader"], stubs=[STUB_MD5, STUB_DECODE], bounds="values <= 32 (48) octets; secret 0/3 octets", outside_claim=["longer values"], assumptions=[]),
+    "C14": dict(
+        level_text=("The message harnesses decide decode(b, opts) = spec(b, opts) for symbolic opts and all octets; the specification is by "
+                    "construction 'first enabled check that fires rejects, otherwise the option-free result', reading version / reserved / control "
+                    "P,O bits nowhere else — monotonicity, exactly-its-own-bits and bit-independence follow. The default entry point is decided "
+                    "equal to spec(b, {version})."),
+        level_note=COMMON_NOTE, functions_encoded=MSG_FUNCS, stubs=[STUB_GREEDY0], bounds="messages 0-16 (24) octets, all 65 536 flag words, 8 option sets", outside_claim=[], assumptions=["closed-form argument about the specification (kani/src/spec/msg.rs spec_early)"]),
+    "C15": dict(
+        level_text=("AVP-list layer, every octet symbolic: one result per record in wire order, vendor-specific and undecodable records reported "
+                    "and skipped by their own length, parsing stops only at an unusable length field (0-14 (20) octets, up to 3 records). Control "
+                    "layer: accepted iff list empty or first is a valid Message Type and nothing failed, for 0 and 1 records through the real codec."),
+        level_note=COMMON_NOTE + " NOT decided: order/count of 2+ errors inside the control layer's own collection step (std's into_iter().filter_map().collect()); the engine does not finish on 2 results. That step is assumed order-preserving.",
+        functions_encoded=["AVP::try_read_greedy", "Header::try_read", "ControlMessage::try_read"], stubs=[STUB_DECODE, STUB_GREEDY0],
+        bounds="<= 3 records at the list layer; <= 1 record through the control layer", outside_claim=["2+ results through ControlMessage::try_read"], assumptions=["std filter_map/collect preserves order"]),
+    "C16": dict(
+        level_text=("For each enumerated field one symbolic u16 is pushed through the real decoder/encoder and the solver decides the accept set, "
+                    "the code->name map (names and numbers from RFC 2661, not from the crate) and re-encoding for all 65 536 values at once."),
+        level_note=COMMON_NOTE, functions_encoded=["types::MessageType::try_read (phf map incl. SipHash)", "ResultCode::try_read", "result_code::Error::try_read", "ProxyAuthenType::try_read", "CodeValue::{from,as_stop_ccn,as_cdn}", "decode_avp dispatch"],
+        stubs=[STUB_UTF8], bounds="complete per field (one 16-bit code per query); dispatch at payload lengths 2 (0,4,10,26)", outside_claim=[], assumptions=["RFC number tables transcribed correctly"]),
+    "C17": dict(
+        level_text=("Constructor->accessor for the four bitmask kinds with both booleans symbolic; wire word->decode->accessors/encode with the whole "
+                    "32-bit word and the flipped bit symbolic; finite domain, fully covered."),
+        level_note=COMMON_NOTE, functions_encoded=["types::{FramingCapabilities,BearerCapabilities,BearerType,FramingType}::{new,try_read,accessors,write}"], stubs=[],
+        bounds="complete", outside_claim=[], assumptions=["accessor <-> parameter pairing is by name"]),
+    "C18": dict(
+        level_text=("SliceReader: sequences of 3-4 (5) operations with symbolic kind and argument on 8 (12) symbolic octets against a cursor model, "
+                    "including over-long bytes(n), zero-length requests and sub-reader isolation. VecWriter: fixed operation-kind sequences with "
+                    "symbolic values and symbolic overwrite offsets against an array model; out-of-range overwrite must panic."),
+        level_note=COMMON_NOTE + " Writer operation kinds are constants (a Vec of symbolic length exhausts memory); unchecked-read preconditions are assumed, as the property states.",
+        functions_encoded=["SliceReader::*", "VecWriter::*"], stubs=[], bounds="reader: 8 octets x 4 ops (12 x 5); writer: 3 sequences of 7-12 ops", outside_claim=["longer histories", "symbolic writer operation kinds"], assumptions=[]),
+    "C19": dict(
+        level="other",
+        level_text=("Two solver-decided parts. (1) stdout/stderr: call-graph reachability over the nightly compiler's MIR dump of /repo's working tree "
+                    "(regenerated every run), decided by z3's fixed-point engine — path-insensitive and unbounded; a 'reachable' verdict is confirmed "
+                    "by a native probe with fds captured before it is reported. (2) no state: a Kani history harness decode; decode'; encode; decode "
+                    "with all inputs symbolic. Thread interleavings are NOT explored (no engine here executes Rust threads symbolically)."),
+        level_note="Trusted: rustc's MIR printer, the extractor's over-approximate call resolution (by final path segment), z3; for (2) as the other checks. The thread-independence half of the property is an inference from (1)+(2) (no I/O, no shared mutable state), not an explored quantifier.",
+        explanation=("stdout/stderr half: Datalog reachability (entry = public codec API, sink = std::io::_print/_eprint/stdout/stderr, std::process, std::fs, std::net) "
+                     "over calls(f,g) facts extracted from -Zunpretty=mir; unsat = no execution can print. Kani cannot see println! (its std shim erases it), hence this second engine. "
+                     "State half: bounded 3-call history under Kani/CBMC. Schedules: not explored."),
+        technique="MIR call-graph reachability decided by z3 Datalog (unbounded, path-insensitive) + Kani bounded history harness; native I/O probe confirms",
+        functions_encoded=["every function of the library crate (MIR)", "Message::try_read_validate", "Message::write", "AVP::write", "AVP::try_read_greedy", "MessageType::try_read"], stubs=[STUB_GREEDY0],
+        bounds="MIR part unbounded; history: 3 calls, inputs 9+8 (14+13) octets", outside_claim=["thread interleavings"], assumptions=["call resolution over-approximates dynamic dispatch", "Reader/Writer implementations supplied by the caller are environment"]),
+    "C20": dict(
+        level_text=("Single-fault errors carry the offending value: asserted inside the layer harnesses (InvalidVersion(nibble), InvalidOffset(size), "
+                    "UnsupportedVendorId(v), UnknownAvp(t), UnknownMessageType(c), InvalidResultCodeErrorType(e), IncompleteAVP(t)/InvalidUtf8(t) per kind) "
+                    "for all values. Rendering: to_string() of IncompleteAVP(t) for all 65 536 t (AVPReadError/InvalidUtf8 for t <= 255) against the "
+                    "RFC name of the kind that number dispatches to (decimal when unassigned); all other variants render non-empty for every payload."),
+        level_note=COMMON_NOTE, functions_encoded=["<DecodeError as Display>::fmt", "avp::avp_name", "decode_avp"] + MSG_FUNCS, stubs=[STUB_UTF8, STUB_GREEDY0, STUB_DECODE],
+        bounds="as C05 for error values; rendering complete for IncompleteAVP, t <= 255 for the two longer messages", outside_claim=["multi-fault messages (any error accepted)"], assumptions=["name table in kani/src/h_err.rs transcribed from the AVP enum / RFC 2661 §4.4"]),
 }
+for _k, _v in EVIDENCE.items():
+    _v.setdefault("level", "model_checking")
+    _v.setdefault("technique", TECH)
 
 
 def has_extra(pid):
